@@ -31,6 +31,9 @@ def signature(recs, k, mon):
     if t in pre["st"]["topics"] and t in pre["st"]["msgs"]:
         mx = max([m["seq"] for m in pre["st"]["msgs"][t]] or [0])
         out["rowAhead"] = pre["st"]["topics"][t]["seq"] > mx
+    # was some stored subscription of the topic already holding read > recv before the step (left behind by an earlier step)?
+    if t in pre["st"].get("subs", {}):
+        out["storedReadAheadOfRecv"] = any(r.get("st") == "live" and r.get("read", 0) > r.get("recv", 0) for r in pre["st"]["subs"][t].values())
     # does the live topic hold other permissions for the acting user than the store does (pre-step)?
     try:
         u = a.get("obo") or pre["st"]["sess"] and None
